@@ -84,6 +84,7 @@ def run(d: Path, tier: str = "quick") -> bool:
         print("   ", v)
     if r.returncode == 2:
         print(r.stdout[-1500:], r.stderr[-1500:])
+    run.last = {"property": pid, "tier": tier, "outcome": ("caught" if caught and not nf else "caught-obligation-only" if caught else f"missed-exit{r.returncode}"), "violations": len(viol)}
     return caught
 
 
@@ -100,10 +101,19 @@ def main():
     elif a[0] == "runall":
         tier = a[1] if len(a) > 1 else "quick"
         res = {}
+        only = a[2:]  # optional list of ids
+        rf = V / "seeded" / "RESULTS.json"
+        if rf.exists():
+            res = json.loads(rf.read_text())
         for d in sorted((V / "seeded").iterdir()):
-            if (d / "meta.json").exists():
-                res[d.name] = run(d, tier)
-        print(json.dumps(res, indent=1))
+            if (d / "meta.json").exists() and (not only or d.name in only):
+                if sh(f"git apply --check {d / 'patch.diff'}", cwd=REPO).returncode != 0:
+                    res[d.name] = {"property": json.loads((d / "meta.json").read_text())["property"], "outcome": "patch-does-not-apply-to-HEAD"}
+                    print(d.name, "patch does not apply")
+                    continue
+                run(d, tier)
+                res[d.name] = dict(run.last, repo_head=sh("git rev-parse --short HEAD", cwd=REPO).stdout.strip())
+        rf.write_text(json.dumps(res, indent=1, sort_keys=True) + "\n")
     return 0
 
 
